@@ -120,6 +120,12 @@ func OpenGtp5g(wg *sync.WaitGroup, addr string, mtu uint32) (*Gtp5g, error) {
 }
 
 func (g *Gtp5g) Close() {
+	// the periodic report server queries usage over netlink: stop it (and let
+	// a query in progress finish) before the connections and the multiplexer
+	// that deliver its replies go away
+	if g.ps != nil {
+		g.ps.Close()
+	}
 	if g.conn != nil {
 		g.conn.Close()
 	}
@@ -134,9 +140,6 @@ func (g *Gtp5g) Close() {
 	}
 	if g.bsnl != nil {
 		g.bsnl.Close()
-	}
-	if g.ps != nil {
-		g.ps.Close()
 	}
 }
 
